@@ -55,6 +55,15 @@ PROPS = {
     "C13": dict(module="C13", suites=DYN, technique=_T, design_ref="DESIGN.md §8 C13",
                 note=_N + " Partial by nature: storage aliasing is a NumPy runtime fact no Lean model exhibits; it is decided on the implementation (bytes of argument/current state/last obs/steps before vs after, np.shares_memory) for every explored transition.",
                 text="step = generative step from the current state + install (definitional shape, rfl); generative steps leave the environment untouched and are transparent in any history; runtime purity checked directly on the implementation."),
+    "C14": dict(module="C14", suites=["gen"], technique=_T, design_ref="DESIGN.md §8 C14",
+                note="Partial by nature: process boundaries and PYTHONHASHSEED are runtime facts no Lean model exhibits. The model shows there is no input besides (scenario, operations, draws) resp. (parameters, decision stream) and that choosing from sorted(set) is independent of the set's iteration order (for any total order; that Python's str order on service names is one is assumed). The GEN suite decides the runtime part on the implementation: every parameter set is generated in separate processes under PYTHONHASHSEED 0/1/2/random, with and without the recorder; scenario fingerprints and seeded-trajectory hashes must coincide, and the recorded decision stream must reproduce the scenario through the model.",
+                text="C14_sorted_choice_order_independent (sorting any permutation of a set gives the same list: uniqueness of sorted permutations, proved from scratch), C14_subnet_services_mem (the candidate set depends on membership only), determinism of generate / Env.run as functions of their explicit inputs."),
+    "C15": dict(module="C15", suites=["gen"], technique=_T, design_ref="DESIGN.md §8 C15",
+                note="Theorems hold for every decision stream on which the model generator returns; the GEN suite replays the recorded NumPy decisions of the real generator through the model (whole scenario must coincide, no decision left over) and evaluates the Lean postcondition predicate genPostChecks on the implementation's scenario; termination of the real generator is watched by a subprocess kill-timeout. Not proved: the lower bound '>= 1 service' of cross-zone rules (needs the vulnerability invariant), constructive progress of the OS-choice redraw loop of _generate_privescs. With exploit_probs=None NumPy may return probability 0.0 (2^-53), so (0,1] is proved only for specified probabilities.",
+                text="C15_subnets_partition, C15_topology_{symmetric,reflexive}, C15_only_dmz_public, C15_counts, C15_exploits, C15_privescs, C15_network, C15_sensitive, C15_hosts_addresses, C15_hosts_wf (exactly one OS, >=1 service, >=1 process, also after _ensure_host_vulnerability), C15_firewall_keys, C15_firewall_rules, C15_exploit_loop_progress (pigeonhole), C15_no_division_by_zero."),
+    "C16": dict(module="C16", suites=["gen"], technique=_T, design_ref="DESIGN.md §8 C16",
+                note="Partial: C16_plan_sound is proved for every scenario (an accepted plan is a goal-reaching history); that a plan exists is checked per scenario, not proved for all generator outputs: the driver's saturation planner finds a plan for every generated scenario of the GEN suite and for the 9 shipped ones, and the harness replays that plan on the real environment with every draw succeeding, requiring the terminal flag.",
+                text="C16_plan_sound / C16_findPlan_sound / sweep_reach: plans accepted by solvedBy are action histories over the scenario's own action space ending in a goal state; per-scenario plan existence decided by evaluation + replay on the implementation."),
     "C17": dict(module="C17", suites=["load"], technique=_T, design_ref="DESIGN.md §8 C17",
                 note="The model starts at the object PyYAML's FullLoader returns (PyYAML trusted). Address keys are modelled for the documented '(int, int)' spelling only (Python eval of other spellings is outside the model); math.isclose on host values is modelled as equality. LOAD suite: the 9 shipped files + random documents in the documented format (key spelling variants, 'none' OS in any capitalisation, prob 0/1, empty escalation section, host values of any sign, with/without step limit, host firewalls, shuffled host order) - accept + canonical scenario dump compared field by field; one loaded document per batch explored exhaustively through the DYN machinery (end-to-end).",
                 text="C17_accepts: every document satisfying the documented format DocFormat loads to build(sections); C17_denotes + field theorems (subnets, topology, names, sensitive hosts, exploits/escalations with access and OS normalisation, scan costs, step limit, firewall, hosts with flags/value/deny-lists): whatever is accepted is exactly what the file says."),
